@@ -112,13 +112,27 @@ def modules_of(files: dict, dirs, root: str) -> set:
     return mods
 
 
-def evaluate_project(root: str, support: dict, importers: dict, stt_or_none=None, dirs=()):
+def encode_source(text: str, how: str) -> bytes:
+    """The same source as bytes the way editors and PEP 263 allow it (all of them compile())."""
+    if how == "bom":
+        data = b"\xef\xbb\xbf" + text.encode("utf-8")
+    elif how == "latin1-cookie":
+        data = b"# -*- coding: latin-1 -*-\n# caf\xe9\n" + text.encode("latin-1")
+    elif how == "utf8-cookie":
+        data = "# coding: utf-8\n# caf\u00e9 \u2603\n".encode("utf-8") + text.encode("utf-8")
+    else:
+        raise ValueError(how)
+    compile(data, "<generated>", "exec")  # harness error if this is not valid Python
+    return data
+
+
+def evaluate_project(root: str, support: dict, importers: dict, stt_or_none=None, dirs=(), encodings=None):
     """importers: {relpath: [site...]}. Returns list of per-site results [(relpath, site, violations, nontrivial)], plus file-level."""
     files = dict(support)
     eff_paths = {}
     for rel, sites in importers.items():
         text, effs, uncovered = A.render_file([([tuple(s) for s in site["path"]], site_source(site)) for site in sites])
-        files[rel] = text
+        files[rel] = encode_source(text, encodings[rel]) if encodings and rel in encodings else text
         eff_paths[rel] = effs
     scanned = modules_of(files, dirs, root)
     with Project(root, files, dirs) as pr:
@@ -345,7 +359,11 @@ def projects(draw):
             sites.append(site)
         importers[rel] = sites
     support = {k: v for k, v in files.items() if k not in importers}
-    return {"type": "project", "support": support, "importers": importers, "dirs": [d for d in dirs if d]}
+    spec = {"type": "project", "support": support, "importers": importers, "dirs": [d for d in dirs if d]}
+    if draw(st.integers(0, 4)) == 0:
+        # one importing file is stored with a UTF-8 byte order mark or with a PEP 263 coding cookie
+        spec["encodings"] = {draw(st.sampled_from(sorted(importers))): draw(st.sampled_from(["bom", "latin1-cookie", "utf8-cookie"]))}
+    return spec
 
 
 def check_case(spec: dict) -> dict:
@@ -357,13 +375,15 @@ def check_case(spec: dict) -> dict:
         if spec["type"] == "exh-file":
             results = evaluate_project("proj", support_files(N_PER_FILE), {spec["file"]: spec["sites"]})
         else:
-            results = evaluate_project("proj", spec["support"], spec["importers"], dirs=spec.get("dirs", ()))
+            results = evaluate_project("proj", spec["support"], spec["importers"], dirs=spec.get("dirs", ()), encodings=spec.get("encodings"))
     viols, nontrivial, labels = [], False, []
     for rel, site, v, nt in results:
         viols += v
         nontrivial |= nt
         if site is not None:
             labels += [f"form={site.get('form')}", f"depth={len(site['path'])}", f"field={last_field(site['path'])}"]
+    if spec.get("encodings"):
+        labels += ["source-encoding=" + e for e in spec["encodings"].values()]
     return {"violations": viols, "nontrivial": nontrivial, "labels": sorted(set(labels))}
 
 
